@@ -59,8 +59,13 @@ class CallMixin(object):
   def ev_Call(self, node, st, cx):
     f = node.func
     # spec builtins bind variables: handled on the AST
-    if self.spec_depth and isinstance(f, ast.Name) and f.id in ('forall', 'exists', 'forall_ref', 'exists_ref', 'old', 'let', 'at'):
-      yield st, self.spec_binder(f.id, node, st, cx)
+    if (self.spec_depth or self.ghost_depth) and isinstance(f, ast.Name) and f.id in ('forall', 'exists', 'forall_ref', 'exists_ref', 'old', 'let', 'at'):
+      self.spec_depth += 1
+      try:
+        v = self.spec_binder(f.id, node, st, cx)
+      finally:
+        self.spec_depth -= 1
+      yield st, v
       return
     if self.ghost_depth and not self.spec_depth and isinstance(f, ast.Name) and f.id in ('prove', 'assume'):
       txt = ast.unparse(node.args[0])
@@ -182,6 +187,13 @@ class CallMixin(object):
     if isinstance(callee, VFunc):
       return self.call_repo(st, cx, callee, list(args), kwargs, node)
     if isinstance(callee, VModule):
+      short = callee.name.split('.')[-1]
+      ty = getattr(node, '_pyvc_type', None) if node is not None else None
+      if short == 'deque' and not args and ty is not None and ty.k == 'deque':
+        r = self.new_ref(st)
+        dq = V(ty.with_opt(False), r)
+        self.dq_set_bounds(st, dq, lo=z3.IntVal(0), hi=z3.IntVal(0))
+        return iter([(st, dq)])
       return self.call_extern(st, cx, callee.name, None, args, kwargs, node)
     if isinstance(callee, VClass):
       return self.construct(st, cx, callee.name, args, kwargs, node)
@@ -232,6 +244,10 @@ class CallMixin(object):
       v = self.call_pure(st, cx, fn, args, kwargs)
       yield st, v
       return
+    if spec is None and any((isinstance(d, ast.Name) and d.id in ('abstractmethod', 'abstractproperty')) or
+                            (isinstance(d, ast.Attribute) and d.attr in ('abstractmethod', 'abstractproperty'))
+                            for d in fn.node.decorator_list):
+      raise Unsupported('call of abstract %s needs a (behavioural) contract' % fn.qual)
     if spec is None or spec.inline or self.force_inline(fn):
       for o in self.inline_call(st, cx, fn, args, kwargs, node):
         yield o
@@ -315,6 +331,9 @@ class CallMixin(object):
 
   def contract_call(self, st, cx, fn, spec, args, kwargs, node):
     params = self.bind_params(st, cx, fn, args, kwargs, node)
+    for pn, pt in spec.params.items():
+      if pn in params and isinstance(params[pn], V):
+        params[pn] = self.cast_to(st, params[pn], pt)
     line = getattr(node, 'lineno', '?')
     self.contracts_used.add(spec.name)
     fid, scx = self.spec_frame_ctx(st, spec, fn, params)
